@@ -1,8 +1,8 @@
 #!/bin/bash
 # tools/regen_all.sh [parallelism]: regenerate every committed evidence file from the unchanged /repo tree (VERIF_SEED=1, quick tier), then validate
-P=${1:-4}; cd /verif
+P=${1:-4}; export UPD=${2:-}; cd /verif
 if [ -n "$(git -C /repo status --short | grep -v workflow.py)" ]; then echo "/repo is not clean: refusing"; exit 9; fi
 ids=$(python3 -c "import json;print(' '.join(c['property_id'] for c in json.load(open('MANIFEST.json'))['checks']))")
 mkdir -p .work/regen
-echo $ids | tr ' ' '\n' | xargs -P $P -I{} sh -c 'VERIF_SEED=1 VERIF_TIER=quick ./check {} > .work/regen/{}.out 2>&1; echo "{} exit=$? $(tail -1 .work/regen/{}.out)"' | sort
+echo $ids | tr ' ' '\n' | xargs -P $P -I{} sh -c 'VERIF_SEED=1 VERIF_TIER=quick ./check {} $UPD > .work/regen/{}.out 2>&1; echo "{} exit=$? $(tail -1 .work/regen/{}.out)"' | sort
 python3-vt tools/validate_evidence.py | tail -3
